@@ -257,8 +257,11 @@ func (w *writer) writeEnvVar(envVar *EnvVar) {
 		}
 	}
 
-	for _, node := range envVar.AccessNodes {
-		w.print(" , %s", node)
+	for idx, node := range envVar.AccessNodes {
+		if idx > 0 {
+			w.print(" ,")
+		}
+		w.print(" %s", node)
 	}
 
 	w.println(";")
